@@ -26,13 +26,17 @@ Inductive bexpr :=
 | BPtr (p : pexpr)               (* contextual conversion to bool: p != nullptr *)
 | BNot (b : bexpr)
 | BEq (p q : pexpr)
-| BNe (p q : pexpr).
+| BNe (p q : pexpr)
+| BAnd (b c : bexpr)
+| BOr (b c : bexpr)
+| BVar (x : string).             (* a local declared `const bool x = ...;` (kept in the environment as a null / non-null pointer) *)
 
 Inductive stmt :=
 | SSkip
 | SSeq (a b : stmt)
 | SAssert (b : bexpr)            (* BOOST_ASSERT(b) *)
 | SDecl (x : string) (p : pexpr) (* auto x = p;   (each name has one declaration site: checked by the translator) *)
+| SDeclB (x : string) (b : bexpr) (* const bool x = b; *)
 | SSetVar (x : string) (p : pexpr)
 | SSetFirst (p : pexpr)          (* first = p; *)
 | SSetFld (p : pexpr) (f : fld) (q : pexpr)   (* p->f = q; *)
@@ -95,6 +99,15 @@ Fixpoint eval_b (n : node) (e : env) (s : st) (b : bexpr) : option bool :=
                | Some a, Some c => Some (ptr_eqb a c) | _, _ => None end
   | BNe p q => match eval_p n e s p, eval_p n e s q with
                | Some a, Some c => Some (negb (ptr_eqb a c)) | _, _ => None end
+  | BAnd b1 b2 => match eval_b n e s b1 with
+                  | Some true => eval_b n e s b2       (* && evaluates its right operand only when the left one is true *)
+                  | Some false => Some false
+                  | None => None end
+  | BOr b1 b2 => match eval_b n e s b1 with
+                 | Some true => Some true
+                 | Some false => eval_b n e s b2
+                 | None => None end
+  | BVar x => match lookup x e with Some v => Some (negb (is_null v)) | None => None end
   end.
 
 Inductive res := Go (e : env) (s : st) | Ret (e : env) (s : st) | Bad.
@@ -127,6 +140,7 @@ Fixpoint exec (fuel : nat) (n : node) (c : stmt) (e : env) (s : st) : res :=
       end
   | SAssert b => match eval_b n e s b with Some true => Go e s | _ => Bad end
   | SDecl x p => match eval_p n e s p with Some v => Go (bind x v e) s | None => Bad end
+  | SDeclB x b => match eval_b n e s b with Some v => Go (bind x (if v then Some n else None) e) s | None => Bad end
   | SSetVar x p =>
       match lookup x e, eval_p n e s p with
       | Some _, Some v => Go (bind x v e) s
